@@ -6,7 +6,7 @@
    real crate (exit before the k-th I/O event, fresh process reopens) with the extracted
    acceptor c07_ok, whose meaning is pinned here. *)
 From W Require Import model.Base model.Engine spec.Queue spec.Crash proofs.EngineWF proofs.EngineInv proofs.EngineW proofs.EngineMain proofs.EngineRec proofs.EngineDisk proofs.CrashP proofs.EngineCrash.
-From W Require Import model.EngineCfg proofs.EngineC06.
+From W Require Import model.EngineCfg proofs.EngineC06 proofs.EngineCrashR.
 
 Theorem c07_acceptor_means : forall acked inflight rec,
   c07_ok acked inflight rec = true <->
@@ -83,6 +83,31 @@ Theorem c07_crash_inside_append : forall (c : Cfg) (m : mode) (be : backend) (op
     forall t0, t0 <> t_id t -> stream (get_ts image t0) = stream (get_ts s t0).
 Proof. exact crash_inside_append. Qed.
 
+Definition tq0 : topic := {| t_id := 1; t_nlen := 2 |}.
+Definition eq0_ (p l : N) : entry := {| e_pid := p; e_len := l |}.
+(* ... and crash points inside a single append after ANY history WITH restarts outside block-id drift (any mode) *)
+Theorem c07_crash_inside_append_after_restarts : forall (c : Cfg) (m : mode) (be : backend) (ops : list op) (t : topic) (e : entry),
+  cfg_ok c -> outside_known (env_of c m be) init ops = true ->
+  N.of_nat (length (offered_all ops)) + 1 <= u64_max -> sum_len (offered_all ops) + e_len e <= u64_max ->
+  let s := exec (env_of c m be) init ops in
+  let s' := fst (step (env_of c m be) s (OAppend t e)) in
+  forall image, image = reopen c s \/ image = reopen c s' ->
+    (exists k, (k <= 1)%nat /\ stream (get_ts image (t_id t)) = stream (get_ts s (t_id t)) ++ firstn k [e]) /\
+    forall t0, t0 <> t_id t -> stream (get_ts image t0) = stream (get_ts s t0).
+Proof. exact crash_inside_append_after_restarts. Qed.
+
+(* a crash BETWEEN two operations of any history WITH restarts outside block-id drift (any mode) loses nothing *)
+Theorem c07_crash_between_operations_after_restarts : forall (c : Cfg) (m : mode) (be : backend) (ops : list op),
+  cfg_ok c -> outside_known (env_of c m be) init ops = true ->
+  N.of_nat (length (offered_all ops)) <= u64_max -> sum_len (offered_all ops) <= u64_max ->
+  forall t, stream (get_ts (reopen c (exec (env_of c m be) init ops)) t) = stream (get_ts (exec (env_of c m be) init ops) t).
+Proof. exact restart_rebuilds_streams_after_restarts. Qed.
+
+(* non-vacuity: a history with a restart (outside drift), then an append *)
+Example c07_witness_after_restart :
+  outside_known (env_of small_cfg Strict Fd) init [OAppend tq0 (eq0_ 0 3000); OReopen; OAppend tq0 (eq0_ 1 3000)] = true.
+Proof. vm_compute. reflexivity. Qed.
+
 (* non-vacuity: a history with a rotation, then a three-entry batch (the second entry rotates) crashing
    after its second write: exactly the first two entries are recovered behind the acknowledged ones *)
 Definition tq : topic := {| t_id := 1; t_nlen := 2 |}.
@@ -112,3 +137,13 @@ Print Assumptions c07_crash_inside_batch.
 Print Assumptions c07_crash_inside_batch_accepted.
 Print Assumptions c07_crash_inside_append.
 Print Assumptions c07_crash_inside_batch_after_restarts.
+Check c07_crash_inside_append_after_restarts : forall (c : Cfg) (m : mode) (be : backend) (ops : list op) (t : topic) (e : entry),
+  cfg_ok c -> outside_known (env_of c m be) init ops = true ->
+  N.of_nat (length (offered_all ops)) + 1 <= u64_max -> sum_len (offered_all ops) + e_len e <= u64_max ->
+  let s := exec (env_of c m be) init ops in
+  let s' := fst (step (env_of c m be) s (OAppend t e)) in
+  forall image, image = reopen c s \/ image = reopen c s' ->
+    (exists k, (k <= 1)%nat /\ stream (get_ts image (t_id t)) = stream (get_ts s (t_id t)) ++ firstn k [e]) /\
+    forall t0, t0 <> t_id t -> stream (get_ts image t0) = stream (get_ts s t0).
+Print Assumptions c07_crash_inside_append_after_restarts.
+Print Assumptions c07_crash_between_operations_after_restarts.
